@@ -236,6 +236,18 @@ def execute(scn):
             c["permuted_compared"] = c.get("permuted_compared", 0) + 1
         if d:
             v("permute", m, d)
+    # ---- phase / fraction lists reversed together in place before a seeded subset of the calls
+    if two_phase:
+        specM = copy.deepcopy(spec)
+        specM["permute_calls_seed"] = int(scn.get("seed", 0)) & 0x7FFFFFFF
+        wM = World(specM)
+        wM.run(flat)
+        c["permuted_mid_history_flips"] = getattr(wM, "perm_flips", 0)
+        for m in range(n_all):
+            d = bit_compare(history_of(wM, m), history_of(wI, m))
+            if d:
+                v("permute", m, dict(d, what2="phase and fraction lists reversed together in place "
+                                              "between calls of one history"))
     # ---- dict identity: an equal, newly built params dict for every call
     specF = copy.deepcopy(spec)
     specF["fresh_params_per_call"] = True
@@ -392,7 +404,7 @@ RULE = ("one evaluation = one seeded world of 2-4 minerals (both phases, own flo
         "overlap ops in which 2-3 minerals are advanced concurrently by real caller threads parked "
         "at every callback and released one at a time following the baton sequence in the scenario; "
         "neighbours' updates carry injected faults. The world is executed interleaved, solo per "
-        "mineral, with permuted phase/fraction lists, with only the other phase's fraction changed, "
+        "mineral, with permuted phase/fraction lists (for the whole history, and reversed in place before a seeded subset of the calls), with only the other phase's fraction changed, "
         "as a single-phase equivalent (tight solver), with an identically driven duplicate, and "
         "with one bulk update in two orders; histories compared bit for bit. distinct = distinct "
         "(schedule signature, baton patterns); non-trivial = at least one real alternation between "
@@ -409,7 +421,7 @@ ASSUMPTIONS = [
     "nested same-thread re-entry (an update started from inside a callback of another) is excluded: scipy's LSODA forbids it",
     "over histories that feed the bulk F forward, reordering is only compared for one bulk call from a given state (bit-identical); F equality across minerals is C06's solver-tolerance statement",
 ]
-PROBES = ["params_rewritten_in_place", "fresh_params_dict_compared", "overlap_ops", "baton_switches", "faults_fired_while_others_in_flight", "permuted_compared",
+PROBES = ["permuted_mid_history_flips", "params_rewritten_in_place", "fresh_params_dict_compared", "overlap_ops", "baton_switches", "faults_fired_while_others_in_flight", "permuted_compared",
           "identical_twin_compared", "other_phase_fraction_changed_compared", "bulk_reorder_compared",
           "snapshots_compared"]
 RUN_TIMEOUT_S = 420
